@@ -28,6 +28,9 @@
 package main
 
 import (
+	"syscall"
+	"os"
+	"time"
 	"fmt"
 	"sort"
 	"strings"
@@ -366,7 +369,19 @@ func runTokens(tier string, w tokenWorld, sch wk.IDScheme, menu []wk.RQ, sample 
 		r.Sample = map[string]interface{}{"part": "C (token positions)", "scheme": sch.Name, "spec": spec.String(), "model tokens": strings.Join(modelTokens(spec), " "), "queries": len(menu)}
 	}
 	desc := strings.Join(names, " ") + "\nmodel token list of the whole world: " + strings.Join(modelTokens(spec), " ")
-	judge(&r, buildAll(spec, true, false), sch, desc, "token-positions:", menu, nil)
-	judge(&r, buildTokenCompacts(&r, spec), sch, desc, "token-positions:", menu, nil)
+	t0 := time.Now()
+	bm := buildAll(spec, true, false)
+	t1 := time.Now()
+	judge(&r, bm, sch, desc, "token-positions:", menu, nil)
+	t2 := time.Now()
+	var ru0, ru1 syscall.Rusage
+	syscall.Getrusage(0, &ru0)
+	bc := buildTokenCompacts(&r, spec)
+	syscall.Getrusage(0, &ru1)
+	fmt.Fprintf(os.Stderr, "TIMING cbuild cpu user=%v sys=%v\n", time.Duration(ru1.Utime.Nano()-ru0.Utime.Nano()), time.Duration(ru1.Stime.Nano()-ru0.Stime.Nano()))
+	t3 := time.Now()
+	judge(&r, bc, sch, desc, "token-positions:", menu, nil)
+	t4 := time.Now()
+	fmt.Fprintf(os.Stderr, "TIMING membuild=%v memjudge=%v cbuild=%v(%d) cjudge=%v\n", t1.Sub(t0), t2.Sub(t1), t3.Sub(t2), len(bc), t4.Sub(t3))
 	return r
 }
